@@ -12,6 +12,8 @@ mod alpha_index;
 mod join;
 mod working_memory;
 mod rete_agenda;
+mod modules;
+mod agenda_mgr;
 
 pub type W = (&'static str, fn() -> (bool, String));
 
@@ -25,6 +27,8 @@ fn main() {
     all.extend(join::witnesses());
     all.extend(working_memory::witnesses());
     all.extend(rete_agenda::witnesses());
+    all.extend(modules::witnesses());
+    all.extend(agenda_mgr::witnesses());
     let mut ran = false;
     for (n, f) in &all {
         if name == "all" || n.starts_with(&name) {
